@@ -301,6 +301,17 @@ class PrepareAst:
             return out.ResetPushed()
 
         if isinstance(result, _SelectWith):
+            if not isinstance(result.arg, _type_qualifier.TypeQualifierBase):
+                # constant selector: choose the branch at compile time
+                # (a with/select statement needs a signal or variable as selector)
+                for cond, expr in result.branches.items():
+                    lhs_val, rhs_val = _make_static_comparable(result.arg, cond)
+
+                    if bool(lhs_val == rhs_val):
+                        return out.Value(expr, [])
+
+                return out.Value(result.default, [])
+
             branches = [
                 (
                     # convert cond from str literal to compatible primitive
